@@ -444,12 +444,101 @@ pub fn scenarios(tier: Tier) -> Vec<LinkScenario<fn() -> Box<dyn Probe>>> {
     out
 }
 
+/// One message of `len` bytes on a reliable channel with the default 5 MiB budget, both directions, perfect network,
+/// application draining every tick: nobody may be disconnected for channel memory, and the budget comes back.
+pub fn big_message_case(ordered: bool, len: usize) -> Option<Violation> {
+    use renet::{ChannelConfig, ConnectionConfig, RenetClient, RenetServer, SendType};
+    use std::time::Duration;
+    const BUDGET: usize = 5 * 1024 * 1024;
+    let chans = || {
+        vec![ChannelConfig {
+            channel_id: 0,
+            max_memory_usage_bytes: BUDGET,
+            send_type: if ordered { SendType::ReliableOrdered { resend_time: Duration::from_millis(300) } } else { SendType::ReliableUnordered { resend_time: Duration::from_millis(300) } },
+        }]
+    };
+    let cfg = || ConnectionConfig { available_bytes_per_tick: 16_000_000, server_channels_config: chans(), client_channels_config: chans() };
+    let kname = if ordered { "ordered" } else { "unordered" };
+    let r = crate::link::guard("big message", || {
+        let mut srv = RenetServer::new(cfg());
+        let mut cl = RenetClient::new(cfg());
+        srv.add_connection(1);
+        cl.set_connected();
+        if !srv.can_send_message(1, 0u8, len) || !cl.can_send_message(0u8, len) {
+            return Some(Violation::new(format!("C09/big-message/sender-refuses-within-budget/{}", kname), format!("can_send_message says no to {} bytes on an idle {} byte channel", len, BUDGET)));
+        }
+        srv.send_message(1, 0u8, vec![7u8; len]);
+        cl.send_message(0u8, vec![9u8; len]);
+        let dt = Duration::from_millis(100);
+        let mut got = [0usize; 2];
+        for _ in 0..5 {
+            srv.update(dt);
+            cl.update(dt);
+            if let Ok(pk) = srv.get_packets_to_send(1) {
+                for p in pk {
+                    cl.process_packet(&p);
+                }
+            }
+            for p in cl.get_packets_to_send() {
+                let _ = srv.process_packet_from(&p, 1);
+            }
+            while cl.receive_message(0u8).is_some() {
+                got[0] += 1;
+            }
+            while srv.receive_message(1, 0u8).is_some() {
+                got[1] += 1;
+            }
+        }
+        let reasons = (cl.disconnect_reason(), srv.disconnect_reason(1));
+        if reasons.0.is_some() || reasons.1.is_some() {
+            let memory = format!("{:?}", reasons).contains("MaxMemoryReached");
+            let rounded = len.div_ceil(1200) * 1200;
+            let sig = if memory && rounded > BUDGET {
+                // the receiver reserves num_slices * 1200 bytes, more than the message it is going to hold
+                format!("C09/big-message/disconnected-although-within-budget/receive-reservation-rounded-up-to-whole-slices/{}", kname)
+            } else {
+                format!("C09/big-message/disconnected-although-within-budget/{}", kname)
+            };
+            return Some(Violation::new(
+                sig,
+                format!("one {} byte message on a {} byte {} channel, perfect network, application drains every tick: client {:?}, server side {:?} (the receiver reserves {} bytes for its {} slices)", len, BUDGET, kname, reasons.0, reasons.1, rounded, len.div_ceil(1200)),
+            ));
+        }
+        if got != [1, 1] {
+            return Some(Violation::new(format!("C09/big-message/not-delivered/{}", kname), format!("{} bytes: obtained {:?} of 1 message per direction", len, got)));
+        }
+        if srv.channel_available_memory(1, 0u8) != BUDGET || cl.channel_available_memory(0u8) != BUDGET {
+            return Some(Violation::new(
+                format!("C09/big-message/budget-not-returned/{}", kname),
+                format!("{} bytes delivered and acknowledged, available memory server {} client {} of {}", len, srv.channel_available_memory(1, 0u8), cl.channel_available_memory(0u8), BUDGET),
+            ));
+        }
+        None
+    });
+    match r {
+        Ok(v) => v,
+        Err(v) => Some(v),
+    }
+}
+
 pub fn run(tier: Tier) -> i32 {
     let mut rep = Report::new("C09", tier);
     rep.rule("M2: every schedule with <= d deviations over the horizon of each scenario (ample budgets with varying drain timing; 6000-byte budgets with three send cycles and prompt drains; unreliable fragments with 1 s ticks over a lossy baseline) + fault-free tail; oracle after every library call: accounted bytes of every channel of both endpoints within [0, max] (hook; underflow panics under overflow checks); after update: no unreliable reservation older than 3 s; at the quiescent end: zero accounted everywhere and channel_available_memory = configured maximum; tight scenarios: no ReliableChannelMaxMemoryReached disconnect");
-    rep.assume("receive-side accounting is read through the snapshot hook; 'within budget' scenarios keep the sum of reservations (ceil(len/1200)*1200) of messages in flight <= budget and drain every tick");
+    rep.assume("receive-side accounting is read through the snapshot hook; the M2 'within budget' scenarios keep the sum of reservations (ceil(len/1200)*1200) of messages in flight <= budget and drain every tick; the big-message part measures 'within budget' in message bytes, as can_send_message does");
     let sc = scenarios(tier);
     run_link_scenarios(&mut rep, "m2", &sc, tier.pick(3, 4), tier.pick(120.0, 3000.0));
+    // scale class: single reliable messages up to the default channel budget (5 MiB)
+    {
+        let lens: Vec<usize> = tier.pick(vec![1_200_000, 5_241_600, 5_242_879, 5_242_880], vec![76_801, 1_200_000, 1_200_001, 3_000_000, 5_241_599, 5_241_600, 5_241_601, 5_242_000, 5_242_879, 5_242_880]);
+        let cases: Vec<(bool, usize)> = [true, false].iter().flat_map(|&o| lens.iter().map(move |&l| (o, l))).collect();
+        let res = crate::explore::par_cases(cases.len(), |i| big_message_case(cases[i].0, cases[i].1));
+        for (i, r) in res.into_iter().enumerate() {
+            if let Some(v) = r {
+                rep.violation("big-messages", v, J::obj().set("kind", J::s("big-message")).set("ordered", J::Bool(cases[i].0)).set("len", J::i(cases[i].1 as u64)));
+            }
+        }
+        rep.add_sweep("big-messages", cases.len() as u64, cases.len() as u64, 2, vec![format!("one message of {:?} bytes per direction on an ordered / unordered channel with the default 5 MiB budget", lens)]);
+    }
     if rep.machinery.is_none() {
         rep.rule("M1 (API soup): every interleaving up to depth D of send / update / flush / deliver / drop / duplicate / receive with <= 3 packets in flight per direction (ordered and unordered channel); accounting within budget after every call, and from every state a probe on a clone ends with zero bytes accounted once everything is delivered, acknowledged and drained");
         super::soup::run_soup(&mut rep, tier, "soup-ordered", Kind::Ordered, super::soup::O_MEMORY, &["C09/"]);
@@ -463,6 +552,21 @@ pub fn replay(j: &J) -> i32 {
         Some("thorough") => Tier::Thorough,
         _ => Tier::Quick,
     };
+    if j.get("kind").and_then(|k| k.as_str()) == Some("big-message") {
+        let ordered = matches!(j.get("ordered"), Some(J::Bool(true)));
+        let len = j.get("len").and_then(|x| x.as_i()).unwrap_or(5_242_880) as usize;
+        println!("one {} byte message per direction on an {} channel with a 5 MiB budget", len, if ordered { "ordered" } else { "unordered" });
+        return match big_message_case(ordered, len) {
+            Some(v) => {
+                println!("RESULT: violation {} — {}", v.signature, v.message);
+                1
+            }
+            None => {
+                println!("RESULT: no violation");
+                0
+            }
+        };
+    }
     if j.get("kind").and_then(|k| k.as_str()) == Some("trace") {
         let part = j.get("part").and_then(|p| p.as_str()).unwrap_or("");
         let kind = if part.starts_with("soup-unordered") { Kind::Unordered } else { Kind::Ordered };
